@@ -66,8 +66,8 @@ func (m *C07) OnStep(_ explore.Ghost, st *explore.Step) []V {
 
 	remaining := map[uint64]*big.Rat{}
 	type cr struct{ t, r *big.Rat }
-	buyerCredits := map[uint64]*cr{}      // batch key -> credits the buyer must receive
-	sellerEscrow := map[abKey]*big.Rat{}  // (seller,batch) -> escrow decrease
+	buyerCredits := map[uint64]*cr{}              // batch key -> credits the buyer must receive
+	sellerEscrow := map[abKey]*big.Rat{}          // (seller,batch) -> escrow decrease
 	sellerPay := map[string]map[string]*big.Rat{} // seller -> denom -> exact payment
 	sellerN := map[string]map[string]int64{}
 	feeExact := map[string]*big.Rat{} // denom -> exact total fee
